@@ -207,6 +207,7 @@ type Out struct {
 	OTWires      []ot.Wire
 	EA           *simnet.Endpoint
 	Aborted      bool // the session stalled and was aborted
+	Par          *Out // the session served at the same time, if any
 }
 
 type otSpy struct {
@@ -227,12 +228,34 @@ func Run(t *rt.Tape, c *Case, otKind int, pipe simnet.PipeConfig, trace bool) *O
 // RunAbort is Run; with abortOnStall a stalled session has both sockets
 // closed (as an operator would do) and the parties run on to what they return.
 func RunAbort(t *rt.Tape, c *Case, otKind int, pipe simnet.PipeConfig, trace, abortOnStall bool) *Out {
+	return RunPar(t, c, nil, otKind, pipe, trace, abortOnStall)
+}
+
+// RunPar is RunAbort; with par != nil the same two processes serve a second streaming session
+// (program and inputs of par) at the same time: own connection, OT objects and compiler
+// parameters, the same env.Config, whose randomness source is then a scheduling point that
+// may stall. Its result is Out.Par.
+func RunPar(t *rt.Tape, c, par *Case, otKind int, pipe simnet.PipeConfig, trace, abortOnStall bool) *Out {
 	o := &Out{}
 	ea, eb := simnet.Pipe("G", "E", pipe)
 	o.EA = ea
 	spy := &otSpy{OT: twopc.NewOT(otKind, simrand.Stream("G-ot"))}
 	otE := twopc.NewOT(otKind, simrand.Stream("E-ot"))
 	params := NewParams(simrand.Stream("G-garble"))
+	var ea2, eb2 *simnet.Endpoint
+	var spy2 *otSpy
+	var otE2 ot.OT
+	var params2 *utils.Params
+	if par != nil {
+		o.Par = &Out{}
+		ea2, eb2 = simnet.Pipe("Gp", "Ep", pipe)
+		o.Par.EA = ea2
+		spy2 = &otSpy{OT: twopc.NewOT(otKind, simrand.Stream("G-ot-par"))}
+		otE2 = twopc.NewOT(otKind, simrand.Stream("E-ot-par"))
+		params.Config.Rand = &simrand.Yielding{R: params.Config.Rand, StallOneIn: []int{0, 4, 16, 64}[t.Choose(rt.SGen, 4)]}
+		params2 = NewParams(simrand.Stream("G-garble"))
+		params2.Config = params.Config
+	}
 	var onStall func() bool
 	if abortOnStall {
 		onStall = func() bool {
@@ -248,10 +271,39 @@ func RunAbort(t *rt.Tape, c *Case, otKind int, pipe simnet.PipeConfig, trace, ab
 	o.RR = rt.Run(rt.Config{Trace: trace, NoProgress: core.NoProgressDefault, OnStall: onStall, OnCrash: func(party string, _ *rt.Task) {
 		if party == "G" {
 			ea.Abort()
+			if ea2 != nil {
+				ea2.Abort()
+			}
 		} else if party == "E" {
 			eb.Abort()
+			if eb2 != nil {
+				eb2.Abort()
+			}
 		}
 	}}, t, func() {
+		if par != nil {
+			n := o.Par
+			rt.GoParty("G", "stream-garbler-par", func() {
+				conn := p2p.NewConn(ea2)
+				n.GIO, n.GOut, n.GErr = compiler.New(params2).Stream(conn, spy2, "{data}", strings.NewReader(par.Prog.Src), par.In[0], par.Sizes)
+				n.GDone = true
+				if n.GErr != nil {
+					ea2.Abort()
+				} else {
+					conn.Close()
+				}
+			})
+			rt.GoParty("E", "stream-evaluator-par", func() {
+				conn := p2p.NewConn(eb2)
+				n.EIO, n.EOut, n.EErr = circuit.StreamEvaluator(conn, otE2, par.In[1], nil, false)
+				n.EDone = true
+				if n.EErr != nil {
+					eb2.Abort()
+				} else {
+					conn.Close()
+				}
+			})
+		}
 		rt.GoParty("G", "stream-garbler", func() {
 			conn := p2p.NewConn(ea)
 			o.GIO, o.GOut, o.GErr = compiler.New(params).Stream(conn, spy, "{data}", strings.NewReader(c.Prog.Src), c.In[0], c.Sizes)
@@ -275,6 +327,10 @@ func RunAbort(t *rt.Tape, c *Case, otKind int, pipe simnet.PipeConfig, trace, ab
 	})
 	o.GE, o.EG = ea.Sent(), eb.Sent()
 	o.OTWires = spy.Wires
+	if par != nil {
+		o.Par.GE, o.Par.EG = ea2.Sent(), eb2.Sent()
+		o.Par.OTWires = spy2.Wires
+	}
 	return o
 }
 
@@ -293,6 +349,7 @@ type Sample struct {
 	Circuit string
 	OT      string
 	Pipe    string
+	Second  string `json:",omitempty"`
 }
 
 func ioString(io circuit.IO) string {
@@ -360,7 +417,22 @@ func (w *c05) Run(t *rt.Tape, trace bool) *core.Result {
 	res.Sample = smp
 	res.Class = "prog=" + strings.SplitN(prog.Name, "/", 2)[0]
 
-	o := Run(t, c, kind, pipe, trace)
+	// One case in six (moderate programs, no byte-wise transport): the two processes serve a
+	// second streaming session of another program at the same time.
+	var c2 *Case
+	if !small && c.Circ.NumGates <= 20000 && t.Choose(rt.SGen, 6) == 0 {
+		prog2, probe2 := DrawProgram(t)
+		if x := Prepare(t, prog2, probe2); x.Discard == "" && x.Circ.NumGates <= 20000 && (kind != twopc.OTCO || int(x.Circ.Inputs[1].Type.Bits) <= 1500) {
+			c2 = x
+			smp.Second = fmt.Sprintf("session served at the same time: %s in0=%v in1=%v (%s)", prog2.Name, c2.In[0], c2.In[1], gen.Describe(c2.Circ))
+			if prog2.Name == "generated" {
+				smp.Second += "\n" + prog2.Src
+			}
+			res.Sample = smp
+			res.Reach["concurrent-sessions"]++
+		}
+	}
+	o := RunPar(t, c, c2, kind, pipe, trace, false)
 	core.Finish(res, o.RR)
 	res.Nontrivial = o.RR.Switches > 2
 	if c.Circ.NumWires > 65535 {
@@ -383,33 +455,45 @@ func (w *c05) Run(t *rt.Tape, trace bool) *core.Result {
 			Key: fmt.Sprintf("panic|%s|%v", prog.Name, o.RR.Crashed[0].Panic)}
 		return res
 	}
-	if o.GDone && o.GErr != nil {
-		return fail("garbler-error", o.GErr.Error())
+	judge := func(o *Out, c *Case, who string) *core.Result {
+		fail := func(clause, detail string) *core.Result { return fail(clause, who+detail) }
+		if o.GDone && o.GErr != nil {
+			return fail("garbler-error", o.GErr.Error())
+		}
+		if o.EDone && o.EErr != nil {
+			return fail("evaluator-error", o.EErr.Error())
+		}
+		if !o.GDone || !o.EDone {
+			return fail("did-not-terminate", fmt.Sprintf("%v: garbler done=%v evaluator done=%v; %v", o.RR.Outcome, o.GDone, o.EDone, o.RR.Blocked))
+		}
+		if ioString(o.GIO) != ioString(o.EIO) {
+			return fail("output-types-disagree", fmt.Sprintf("garbler %s evaluator %s", ioString(o.GIO), ioString(o.EIO)))
+		}
+		if !gen.EqualOutputs(o.GOut, o.EOut) {
+			return fail("parties-disagree", fmt.Sprintf("garbler %s evaluator %s", gen.FmtInts(o.GOut), gen.FmtInts(o.EOut)))
+		}
+		if !gen.EqualOutputs(o.GOut, c.Want) {
+			return fail("differs-from-whole-circuit", fmt.Sprintf("streaming %s, whole compiled circuit %s (inputs %v %v)", gen.FmtInts(o.GOut), gen.FmtInts(c.Want), c.In[0], c.In[1]))
+		}
+		var wantTypes, gotTypes []string
+		for _, a := range c.Circ.Outputs {
+			wantTypes = append(wantTypes, fmt.Sprintf("%s/%d", a.Type.String(), a.Type.Bits))
+		}
+		for _, a := range o.GIO {
+			gotTypes = append(gotTypes, fmt.Sprintf("%s/%d", a.Type.String(), a.Type.Bits))
+		}
+		if strings.Join(wantTypes, ",") != strings.Join(gotTypes, ",") {
+			return fail("output-types-differ-from-whole-circuit", fmt.Sprintf("streaming %v, whole circuit %v", gotTypes, wantTypes))
+		}
+		return nil
 	}
-	if o.EDone && o.EErr != nil {
-		return fail("evaluator-error", o.EErr.Error())
+	if r := judge(o, c, ""); r != nil {
+		return r
 	}
-	if !o.GDone || !o.EDone {
-		return fail("did-not-terminate", fmt.Sprintf("%v: garbler done=%v evaluator done=%v; %v", o.RR.Outcome, o.GDone, o.EDone, o.RR.Blocked))
-	}
-	if ioString(o.GIO) != ioString(o.EIO) {
-		return fail("output-types-disagree", fmt.Sprintf("garbler %s evaluator %s", ioString(o.GIO), ioString(o.EIO)))
-	}
-	if !gen.EqualOutputs(o.GOut, o.EOut) {
-		return fail("parties-disagree", fmt.Sprintf("garbler %s evaluator %s", gen.FmtInts(o.GOut), gen.FmtInts(o.EOut)))
-	}
-	if !gen.EqualOutputs(o.GOut, c.Want) {
-		return fail("differs-from-whole-circuit", fmt.Sprintf("streaming %s, whole compiled circuit %s (inputs %v %v)", gen.FmtInts(o.GOut), gen.FmtInts(c.Want), c.In[0], c.In[1]))
-	}
-	var wantTypes, gotTypes []string
-	for _, a := range c.Circ.Outputs {
-		wantTypes = append(wantTypes, fmt.Sprintf("%s/%d", a.Type.String(), a.Type.Bits))
-	}
-	for _, a := range o.GIO {
-		gotTypes = append(gotTypes, fmt.Sprintf("%s/%d", a.Type.String(), a.Type.Bits))
-	}
-	if strings.Join(wantTypes, ",") != strings.Join(gotTypes, ",") {
-		return fail("output-types-differ-from-whole-circuit", fmt.Sprintf("streaming %v, whole circuit %v", gotTypes, wantTypes))
+	if c2 != nil {
+		if r := judge(o.Par, c2, "session served at the same time by the same processes: "); r != nil {
+			return r
+		}
 	}
 	return res
 }
